@@ -125,10 +125,13 @@ def install():
     mod = sys.modules[cls.__module__]
     if "Cipher" in _REAL:
         return cls
-    if not hasattr(mod, "Cipher"):
-        raise MachineryError("recorder out of date: %s has no attribute Cipher" % mod.__name__)
-    _REAL["Cipher"] = mod.Cipher
-    mod.Cipher = _cipher_factory
+    # the recorders only feed Layer B (drift): a module that reaches its cipher or its randomness some other way is
+    # judged by Layer A all the same, so a missing attribute is not an error
+    if hasattr(mod, "Cipher"):
+        _REAL["Cipher"] = mod.Cipher
+        mod.Cipher = _cipher_factory
+    else:
+        _REAL["Cipher"] = None
     seen_rng = False
     if hasattr(mod, "os"):
         _REAL["os"] = mod.os
@@ -138,8 +141,6 @@ def install():
         _REAL["urandom"] = mod.urandom
         mod.urandom = _urandom_rec
         seen_rng = True
-    if not seen_rng:
-        raise MachineryError("recorder out of date: %s has neither os nor urandom" % mod.__name__)
     return cls
 
 
@@ -147,7 +148,8 @@ def ref_cbc(c):
     """What real AES-CBC gives on the recorded (k, iv, input): independent of the proxy path."""
     from cryptography.hazmat.primitives.ciphers import algorithms, modes
     try:
-        ci = _REAL["Cipher"](algorithms.AES(c["k"]), modes.CBC(c["iv"]))
+        from cryptography.hazmat.primitives.ciphers import Cipher as _RealCipher
+        ci = (_REAL.get("Cipher") or _RealCipher)(algorithms.AES(c["k"]), modes.CBC(c["iv"]))
         x = ci.encryptor() if c["dir"] == "enc" else ci.decryptor()
         return b2s(x.update(c["inp"]) + x.finalize())
     except Exception:
